@@ -16,7 +16,7 @@ RULE = (
     "same root key id, attacker envelope for another root key}; (b) single-bit flips (quick: every bit of header, response header, security trailer, signature, first/last 16 body bytes, bit 0 of "
     "every other body byte; thorough: every bit); (c) pad_length 0..255, auth_len/frag_len +-{1,8,16} with and without matching bytes, alloc_hint/context/cancel edits, packet type -> every other "
     "type; (d) replay of the sealed reply to request #1 as reply to request #2, and a reply sealed by another connection's context; (e) reply signed but not encrypted (integrity level). "
-    "Oracle: (a) must raise; otherwise raise, or return exactly what the genuine reply yields (unprotect: the plaintext; protect: a blob that names the DC's key and opens with the genuine "
+    "Oracle: (a) and (f) must raise; otherwise raise, or return exactly what the genuine reply yields (unprotect: the plaintext; protect: a blob that names the DC's key and opens with the genuine "
     "root key). A blob that opens with the attacker's key, or a plaintext obtained through an unsealed reply, is the violation. Non-trivial = the tampered reply reached the client; distinct by alteration."
 )
 ASSUME = ["pyspnego's NTLM implementation is the security context (both ends)", "a client blocking on a shortened/lengthened frame is an error outcome (the real peer would close)"]
@@ -92,6 +92,15 @@ def alterations(tier: str, sealed_len: int, body_len: int, sign: bool) -> t.List
             alts.append((f"{name}={v}", ("set", off, width, v)))
     for ptype in (0, 3, 11, 12, 13, 14, 15, 1, 19):
         alts.append((f"ptype={ptype}", ("set", 2, 1, ptype)))
+    # forged replies that keep a security trailer but claim a weaker protection level / another call id, with a cleartext body
+    for level in (0, 1, 2, 3, 4, 5, 6, 7):
+        for body in ("genuine", "evil-other"):
+            for sigkind in ("junk", "kept"):
+                alts.append((f"forged:level{level}:{body}:{sigkind}", ("forged", level, body, sigkind)))
+    for cid in (0, 2, 0x7FFFFFFF):
+        for body in ("genuine", "evil-other"):
+            alts.append((f"notrailer-callid{cid}:{body}", ("notrailer-callid", cid, body)))
+            alts.append((f"sealed-callid{cid}", ("set", 12, 4, cid)))
     alts.append(("integrity-level", ("integrity",)))
     alts.append(("other-connection-context", ("otherctx",)))
     alts.append(("truncate-signature", ("len", 10, -4, True)))
@@ -114,6 +123,24 @@ def apply(desc, sealed: bytes, info: dict, st: dict, op: str, sd: bytes) -> byte
         b = bytearray(sealed)
         b[desc[1] // 8] ^= 1 << (desc[1] % 8)
         return bytes(b)
+    if k == "forged":
+        _, level, which, sigkind = desc
+        body = info["body"] if which == "genuine" else evil_stub(st, "other", op, sd)
+        body = body + b"\x00" * (-len(body) % 16)
+        pad = len(body) - (len(info["plain_stub"]) if which == "genuine" else len(evil_stub(st, "other", op, sd)))
+        trailer = bytearray(info["trailer"])
+        trailer[1] = level
+        trailer[2] = pad
+        sig = sealed[-info["sig_len"] :] if sigkind == "kept" else bytes(range(1, info["sig_len"] + 1))
+        hdr = bytearray(sealed[:24])
+        hdr[16:20] = struct.pack("<I", len(body))
+        return fix_len(bytes(hdr) + body + bytes(trailer) + sig)
+    if k == "notrailer-callid":
+        _, cid, which = desc
+        body = info["plain_stub"] if which == "genuine" else evil_stub(st, "other", op, sd)
+        out = bytearray(strip_trailer(sealed, info, body))
+        out[12:16] = struct.pack("<I", cid)
+        return bytes(out)
     if k == "pad":
         t_off = 24 + len(info["body"])
         b = bytearray(sealed)
@@ -215,7 +242,7 @@ def judge(seed: int, op: str, api: str, sign: bool, name: str, desc, acc) -> Non
         acc.violate("harness.reply-not-reached", case, {"status": status, "value": repr(v)[:200]})
         return
     acc.nt(("alt", op, api, sign, name))
-    unsealed = desc is not None and desc[0] == "notrailer"
+    unsealed = desc is not None and desc[0] in ("notrailer", "notrailer-callid", "forged")
     if status == "spin":
         acc.violate("spin", case, {"detail": v})
         return
